@@ -168,6 +168,15 @@ func (t *Type) UnmarshalJSON(buf []byte) error {
 				if err != nil {
 					return err
 				}
+				declared := make(map[string]struct{}, len(atys))
+				for k := range atys {
+					declared[NormalizeString(k)] = struct{}{}
+				}
+				for _, name := range optionals {
+					if _, ok := declared[NormalizeString(name)]; !ok {
+						return fmt.Errorf("invalid object type: optional attribute %q is not declared", name)
+					}
+				}
 				*t = ObjectWithOptionalAttrs(atys, optionals)
 			} else {
 				*t = Object(atys)
